@@ -1027,6 +1027,9 @@ func (m *RedisMessage) AsXRead() (ret map[string][]XRangeEntry, err error) {
 		return nil, err
 	}
 	if m.IsMap() {
+		if len(m.values())%2 != 0 {
+			return nil, fmt.Errorf("%w: redis message type map length is not even", errParse)
+		}
 		ret = make(map[string][]XRangeEntry, len(m.values())/2)
 		for i := 0; i < len(m.values()); i += 2 {
 			if ret[m.values()[i].string()], err = m.values()[i+1].AsXRange(); err != nil {
@@ -1124,6 +1127,9 @@ func (m *RedisMessage) AsXReadSlices() (map[string][]XRangeSlice, error) {
 	var ret map[string][]XRangeSlice
 	var err error
 	if m.IsMap() {
+		if len(m.values())%2 != 0 {
+			return nil, fmt.Errorf("%w: redis message type map length is not even", errParse)
+		}
 		ret = make(map[string][]XRangeSlice, len(m.values())/2)
 		for i := 0; i < len(m.values()); i += 2 {
 			if ret[m.values()[i].string()], err = m.values()[i+1].AsXRangeSlices(); err != nil {
@@ -1540,6 +1546,9 @@ func (m *RedisMessage) ToAny() (any, error) {
 	case typeInteger:
 		return m.intlen, nil
 	case typeMap:
+		if len(m.values())%2 != 0 {
+			return nil, fmt.Errorf("%w: redis message type map length is not even", errParse)
+		}
 		vs := make(map[string]any, len(m.values())/2)
 		for i := 0; i < len(m.values()); i += 2 {
 			if v, err := m.values()[i+1].ToAny(); err != nil && !IsRedisNil(err) {
@@ -1622,6 +1631,9 @@ func (m *RedisMessage) setExpireAt(pttl int64) {
 }
 
 func toMap(values []RedisMessage) (map[string]RedisMessage, error) {
+	if len(values)%2 != 0 {
+		return nil, fmt.Errorf("%w: redis message type map length is not even", errParse)
+	}
 	r := make(map[string]RedisMessage, len(values)/2)
 	for i := 0; i < len(values); i += 2 {
 		if values[i].typ == typeBlobString || values[i].typ == typeSimpleString {
